@@ -25,7 +25,14 @@ RULE = (
     "observations: identical to an entry, near an entry, at the centre, at "
     "the edge, far outside (all weights underflow), in the underflow "
     "transition; x2_max in {-1 (also by default), 0, small, large}; the "
-    "same checks on a permuted copy of the database.  Oracle = long-double "
+    "same checks on a permuted copy of the database; y stored as float64 / "
+    "float32 / int16 / int32 / int64 (integer databases with a noise of a "
+    "few counts) and x as float64 / float32 / int32 / int64.  History on "
+    "the one object: after all calls every returned array (predict, weights, "
+    "cdf, predict_quantiles for every x2_max, the unrestricted window among "
+    "them) must not alias the object's arrays or another result; all of "
+    "them are overwritten in place, the calls are repeated and must give "
+    "identical answers with unchanged object state.  Oracle = long-double "
     "weighted sums over the whole database.  Non-trivial = at least 2 "
     "entries with weight > 1e-12 and some x2_max >= 0 that cuts at least "
     "one entry.  Distinct = distinct case hash."
@@ -51,7 +58,12 @@ ASSUMPTIONS = [
     "demanded when min chi2/2 over the window > 746 (+Delta), a number when "
     "it is < 700; in between both are accepted (label underflow-transition)",
     "an entry may be missing from the chi-square window only if its exact "
-    "chi-square is > x2_max",
+    "chi-square is > x2_max (also for databases stored as float32, whose "
+    "projections typhon computed in single precision before its fix)",
+    "the database may be stored as float64, float32 or integer arrays (y "
+    "and x independently); observations are float64 and in general not "
+    "representable in the storage type; the oracle uses the exact stored "
+    "values",
 ]
 
 LD = np.longdouble
@@ -64,7 +76,16 @@ U = 2.0 ** -53
 @st.composite
 def bmci_cases(draw, large=600):
     m = draw(st.one_of(st.integers(1, 3), st.integers(1, 10)))
-    Sd = draw(GM.spd(m, max_spread_decades=6.0, scales=(-2.0, 2.0)))
+    # storage type of the database (digitised / single precision data)
+    ydtype = draw(st.sampled_from(["float64"] * 5 + [
+        "float32", "float32", "int16", "int32", "int64"]))
+    xdtype = draw(st.sampled_from(["float64"] * 4 + [
+        "float32", "int32", "int64"]))
+    if ydtype.startswith("int"):
+        # noise of a few counts, so that whole numbers resolve the weights
+        Sd = draw(GM.spd(m, max_spread_decades=2.0, scales=(1.0, 2.0)))
+    else:
+        Sd = draw(GM.spd(m, max_spread_decades=6.0, scales=(-2.0, 2.0)))
     S = np.array(Sd["matrix"], dtype=float).reshape(m, m)
     L = np.linalg.cholesky(S)
     if draw(st.integers(0, 9)) < 7:
@@ -86,6 +107,10 @@ def bmci_cases(draw, large=600):
     centre = np.array(draw(st.lists(st.sampled_from(
         [0.0, 0.0, 1.0, -7.5, 100.0, 250.0]), min_size=m, max_size=m)))
     y = centre + z @ L.T
+    if ydtype.startswith("int"):
+        y = np.round(y)
+    elif ydtype == "float32":
+        y = y.astype(np.float32).astype(float)
     # x
     xkind = draw(st.sampled_from(["lattice", "unit", "heavy", "constant",
                                   "positive"]))
@@ -98,6 +123,13 @@ def bmci_cases(draw, large=600):
                     draw(st.sampled_from([0.0, 0.0, 0.5])))
     x = np.array(x, dtype=float)
     x[np.abs(x) < 1e-100] = 0.0      # products with weights must not underflow
+    if xdtype.startswith("int"):
+        x = np.round(x)
+        if np.abs(x).max() > 2e9:
+            xdtype = "int64"
+    elif xdtype == "float32":
+        x = x.astype(np.float32).astype(float)
+        x[np.abs(x) < 1e-30] = 0.0
     # duplicates
     ndup = draw(st.integers(0, 3)) if n > 1 else 0
     dup = False
@@ -152,7 +184,7 @@ def bmci_cases(draw, large=600):
     return {"n": n, "m": m, "y": y.tolist(), "x": x.tolist(),
             "S": S.tolist(), "S_structure": Sd["structure"], "obs": obs,
             "x2": x2, "perm": perm, "taus": taus, "xkind": xkind,
-            "dup": dup, "spread": spread}
+            "dup": dup, "spread": spread, "ydtype": ydtype, "xdtype": xdtype}
 
 
 # --------------------------------------------------------------------------
@@ -257,9 +289,61 @@ def nan_status(chi, delta):
 # --------------------------------------------------------------------------
 # the check
 # --------------------------------------------------------------------------
-def check_instance(ctx, BMCI, y, x, S, case, tag, full):
+def history_pass(ctx, bm, obs_all, taus, x2_list, tag):
+    """One object, several calls: every returned array is an independent
+    copy (no aliasing of the object's state or of another result), and after
+    the caller has overwritten all of them in place the same calls give the
+    same answers and the object's arrays are unchanged."""
+    internal = {k: v for k, v in vars(bm).items() if isinstance(v, np.ndarray)}
+    snap = {k: v.copy() for k, v in internal.items()}
+
+    def collect():
+        out = {}
+        for x2 in x2_list:
+            out["predict-mean x2_max=%r" % x2], \
+                out["predict-std x2_max=%r" % x2] = bm.predict(obs_all, x2)
+            _, _, out["weights x2_max=%r" % x2] = bm.weights(obs_all[0], x2)
+            out["cdf-x x2_max=%r" % x2], out["cdf-F x2_max=%r" % x2] = \
+                bm.cdf(obs_all[0], x2)
+            out["quantiles x2_max=%r" % x2] = bm.predict_quantiles(
+                obs_all, taus, x2)
+        return out
+
+    first = collect()
+    copies = {k: np.array(v, copy=True) for k, v in first.items()}
+    arrays = [(k, v) for k, v in first.items() if isinstance(v, np.ndarray)]
+    for i, (k, v) in enumerate(arrays):
+        for name, a in internal.items():
+            ctx.check(not np.shares_memory(v, a),
+                      "history/result-aliases-object-state", lambda: (
+                          "%s: %s shares memory with BMCI.%s" % (tag, k, name)))
+        for k2, v2 in arrays[:i]:
+            ctx.check(not np.shares_memory(v, v2),
+                      "history/result-aliases-another-result", lambda: (
+                          "%s: %s shares memory with %s" % (tag, k, k2)))
+    for k, v in arrays:                 # the caller edits its results
+        if v.size and v.flags.writeable:
+            v[...] = -7
+    second = collect()
+    for k, v in second.items():
+        ctx.check(np.array_equal(np.asarray(v), copies[k], equal_nan=True),
+                  "history/answer-changed-after-editing-results", lambda: (
+                      "%s: %s was %r, after the caller overwrote the returned "
+                      "arrays the same call gives %r" % (
+                          tag, k, copies[k].ravel()[:8],
+                          np.asarray(v).ravel()[:8])))
+    for name, a in snap.items():
+        ctx.check(np.array_equal(getattr(bm, name), a, equal_nan=True),
+                  "history/object-state-changed", lambda: (
+                      "%s: BMCI.%s changed between the calls" % (tag, name)))
+    ctx.label("history-results-overwritten-then-recomputed")
+
+
+def check_instance(ctx, BMCI, y, x, S, case, tag, full, ytyped=None,
+                   xtyped=None):
     n, m = y.shape
-    bm = BMCI(y.copy(), x.copy(), S.copy())
+    bm = BMCI((y if ytyped is None else ytyped).copy(),
+              (x if xtyped is None else xtyped).copy(), S.copy())
     # the database is kept as (y_i, x_i) pairs
     got = np.hstack([np.asarray(bm.y, dtype=float).reshape(n, m),
                      np.asarray(bm.x, dtype=float).reshape(n, 1)])
@@ -271,6 +355,7 @@ def check_instance(ctx, BMCI, y, x, S, case, tag, full):
     by = got[:, :m]
     bx = got[:, m]
     orc = Oracle(S)
+
     xmin, xmax = float(x.min()), float(x.max())
     rng = xmax - xmin
     obs_all = np.array([o["y"] for o in case["obs"]], dtype=float)
@@ -443,6 +528,8 @@ def check_instance(ctx, BMCI, y, x, S, case, tag, full):
                 ctx.check(okq, "quantiles/not-the-weighted-quantile", lambda: (
                     "%s: tau=%r -> %r; window x %r with cdf %r" % (
                         where, tau, qv, ux[:12], uG[:12])))
+    if full:
+        history_pass(ctx, bm, obs_all, taus, case["x2"], tag)
     return any_nontrivial
 
 
@@ -464,12 +551,25 @@ def check_bmci(case, ctx):
         ctx.label("n>=100")
     if n == 1:
         ctx.label("n=1")
-    nt = check_instance(ctx, BMCI, y, x, S, case, "original", True)
+    ydtype = case.get("ydtype", "float64")
+    xdtype = case.get("xdtype", "float64")
+    yt, xt = y.astype(ydtype), x.astype(xdtype)
+    if not (np.array_equal(yt.astype(float), y)
+            and np.array_equal(xt.astype(float), x)):
+        raise AssertionError("generator: database not representable in its "
+                             "storage type")
+    ctx.label("y-stored-as-" + ydtype, "x-stored-as-" + xdtype)
+    if ydtype != "float64":
+        ctx.label("database-not-float64")
+        obs = np.array([o["y"] for o in case["obs"]], dtype=float)
+        if not np.array_equal(obs.astype(ydtype).astype(float), obs):
+            ctx.label("observation-not-representable-in-database-dtype")
+    nt = check_instance(ctx, BMCI, y, x, S, case, "original", True, yt, xt)
     perm = np.array(case["perm"], dtype=int)
     if n > 1 and not np.array_equal(perm, np.arange(n)):
         ctx.label("permuted")
         check_instance(ctx, BMCI, y[perm], x[perm], S, case, "permuted",
-                       False)
+                       False, yt[perm], xt[perm])
     ctx.nontrivial = bool(nt)
 
 
@@ -477,5 +577,5 @@ def suites(tier):
     return [
         Suite("bmci", check_bmci,
               strategy=bmci_cases(600 if tier == "quick" else 5000),
-              examples={"quick": 800, "thorough": 5000}),
+              examples={"quick": 650, "thorough": 5000}),
     ]
